@@ -951,6 +951,21 @@ def gen_descriptors(tier, rng):
         else:
             yield D("sample_khatri_rao", Ms, skip=skip, n_samples=ns, indices_list=None, seed=rng.randrange(10 ** 6))
 
+    # ---- inner with n_modes beyond the order L of tensor1 (malformed: there are no n_modes last modes).  Both backends must reject.
+    # The core code slices shape_t1 with L - n_modes < 0 (Python counts from the end) and so ACCEPTS the request exactly when
+    # tensor2's shape is the wrapped-around slice shape_t1[max(2L - n, 0):] (known finding core_inner_n_modes_beyond_order; model of
+    # the code as it is: Model/TenalgRaw.v inner_as_is); every other tensor2 is rejected by both (appended last: earlier streams unchanged)
+    for s in [(2,), (3,), (2, 3), (3, 2), (1, 2), (2, 2), (2, 3, 2), (3, 1, 2)]:
+        L = len(s)
+        for n in range(L + 1, 2 * L + 2):
+            if quick and L == 3 and n % 2 == 0:
+                continue
+            k = max(2 * L - n, 0)
+            yield D("inner", [g.arr(s), g.arr(tuple(s[k:]))], valid=False, n_modes=n)                    # the wrapped-around slice
+            yield D("inner", [g.arr(s), g.arr(tuple(s[k:]) + (2,))], valid=False, n_modes=n)             # one mode more: rejected
+            if L >= 2:
+                yield D("inner", [g.arr(s), g.arr(tuple(s[L - 1:]) + (2,) * (n - 1))], valid=False, n_modes=n)   # n modes, first one fitting
+
 
 def backends_of(d):
     if d["fn"] == "mttkrp":
@@ -1030,9 +1045,24 @@ def describe(d, be):
 # ----------------------------------------------------------------------------- known-finding classifiers
 # none: the two findings of round 1 (core inner n_modes=0; core tensordot with unsorted batched modes) were repaired in /repo
 # (f5f06aa, 8cd4a39); their witnesses are regression cases in corpus/C02 and any recurrence is a VIOLATION.
-# none: all findings so far were repaired in /repo (a6246d0 einsum multi_mode_dot repeated modes, 8b25fc6 size-1 broadcast, f5f06aa inner n_modes=0, 8cd4a39 tensordot batch order, 92eb2a5 negative modes of
+# one open finding (round 9): core inner accepts n_modes beyond the order of tensor1 (classifier below; fix candidate
+# build/fix_candidates/C02_inner_n_modes_beyond_order.diff).  All earlier findings were repaired in /repo (a6246d0 einsum multi_mode_dot repeated modes, 8b25fc6 size-1 broadcast, f5f06aa inner n_modes=0, 8cd4a39 tensordot batch order, 92eb2a5 negative modes of
 # einsum mode_dot and of both multi_mode_dot); their witnesses are regression Examples / corpus cases and any recurrence is a VIOLATION.
-CLASSIFIERS = {}
+def _clf_core_inner_beyond_order(f):
+    """core inner accepting n_modes larger than the order of tensor1 (the wrapped-around slice); every other failing input of inner
+    (a wrong value within the order, the einsum backend accepting, a malformed request of another kind) stays a VIOLATION"""
+    inp = f.get("inputs") or {}
+    o = inp.get("opts") or {}
+    arrs = inp.get("arrays") or []
+    n = o.get("n_modes")
+    if not (inp.get("fn") == "inner" and inp.get("backend") == "core" and isinstance(n, int) and not isinstance(n, bool) and len(arrs) == 2):
+        return False
+    s1, s2 = tuple(np.asarray(arrs[0]).shape), tuple(np.asarray(arrs[1]).shape)
+    L = len(s1)
+    return n > L and s2 == s1[max(2 * L - n, 0):] and f.get("predicate") == "C02_index_formula"
+
+
+CLASSIFIERS = {"core_inner_n_modes_beyond_order": _clf_core_inner_beyond_order}
 
 
 def entry_point(d, be):
@@ -1274,6 +1304,11 @@ def run(chk):
                 c_out = ("ok", np.asarray(out[1]).astype(np.complex128))
             try:
                 oplit = coq_ops(d, be)
+                if (d["fn"] == "inner" and be == "core" and out[0] == "ok" and isinstance(d["opts"]["n_modes"], int)
+                        and d["opts"]["n_modes"] > np.asarray(d["arrays"][0]).ndim):
+                    # the code accepted n_modes beyond the order of tensor1 (known finding): the returned tensor must then be what the
+                    # model of the code AS IT IS computes; a rejection (the repaired behaviour) goes to the documented routine above
+                    oplit = f"(OInnerAsIs {d['opts']['n_modes']}%nat)"
             except ValueError as e:   # a broken tie, never ignored
                 chk.broken.append({"what": "corr:C02 argument form not translatable to the model", "detail": str(e)})
                 continue
@@ -1320,7 +1355,7 @@ def run(chk):
         chk.disagreement("corr:C02 (Model/Tenalg.v vs tensorly/tenalg)", describe(d, be))
     chk.assumptions = ["np.dot / np.kron / np.einsum / broadcasting multiply / reshape / transpose behave as modelled at index level in Model/Tenalg.v and Base/Tensor.v (checked on this run's cases)",
                        "floating-point rounding is outside the model; integer-valued operands keep every partial sum far below 2^53 so the comparison is exact",
-                       "size-0 modes, repeated modes with vector operands (Python reaches negative indices there), khatri_rao of 1-D operands, higher_order_moment of order 0 (the code returns the mean, the model rejects), weights / masks that NumPy broadcasts in a degenerate way (weights longer than a single column R = 1, masks with size-1 axes or a flat mask under the einsum backend, which the core backend accepts and np.einsum rejects) are outside the model and not generated; the int / negative / scalar / flat forms of tensordot's modes and batched_modes go to the model in the form given to the code (Model/Tenalg.v validate_contraction mirrors tenalg_utils._validate_contraction_modes; an untranslatable form is reported as a broken tie); repeated modes on one tensor, bool / NumPy-integer mode arguments are not generated"]
+                       "size-0 modes, khatri_rao of 1-D operands, higher_order_moment of order 0 (the code returns the mean, the model rejects), weights / masks that NumPy broadcasts in a degenerate way (weights longer than a single column R = 1, masks with size-1 axes or a flat mask under the einsum backend, which the core backend accepts and np.einsum rejects) are outside the model and not generated; the int / negative / scalar / flat forms of tensordot's modes and batched_modes go to the model in the form given to the code (Model/Tenalg.v validate_contraction mirrors tenalg_utils._validate_contraction_modes; an untranslatable form is reported as a broken tie); repeated modes ARE generated on every run: multi_mode_dot naming a mode on several matrix operands (successive product, with a reference value), on vector operands and mixes (no textbook value is claimed: the literal Python-int models of both backends must reproduce the code and the two backends must agree), and tensordot naming a mode of one tensor twice (seven fixed requests, correspondence only: the core backend rejects, np.einsum takes the diagonal, the backends are not required to agree); inner with n_modes beyond the order of tensor1 is generated as a malformed request (core's acceptance of the wrapped-around slice is the known finding core_inner_n_modes_beyond_order; a returned tensor is compared with Model/TenalgRaw.v inner_as_is); negative n_modes of inner, bool / NumPy-integer mode arguments are not generated"]
     chk.trusted = ["explicit-loop NumPy reference formulas in harness/props/C02.py (spec-side transcription used by the Python predicate)",
                    "higher_order_moment is compared as n_samples * moment (the division by n_samples is checked to be integer-exact to 1e-9)"]
     return chk.finish(CLASSIFIERS)
